@@ -30,6 +30,18 @@ func init() {
 }
 
 func runC01(c *fw.Case) {
+	if c.Index%16 == 3 {
+		c01BurnBoundaryProbe(c)
+		c.KeepViolations("C01/")
+		return
+	}
+	if c.Index%8 == 7 {
+		// distributor-only chain (no minting): supply changes by the burns alone, and those
+		// must be exactly what the configuration burns, block by block
+		runDistScenario(c, "C01")
+		c.KeepViolations("C01/")
+		return
+	}
 	r, err := newRich(c, false)
 	if err != nil {
 		if p := asPanic(err); p != nil {
